@@ -47,6 +47,13 @@ def execute(spec, external_cancel_at=None, sample=None):
                 for o in b.objs.values():
                     if hasattr(o, '_sd_calls'):
                         o._sd_calls = 0
+                # optionally the graph is edited between the two runs: one more requirement between two members
+                ed = spec.get('rerun_edge')
+                if ed:
+                    S, i, j = ed
+                    mem = b.members[S]
+                    b.objs[mem[i]].requires(b.objs[mem[j]])
+                    b.edges[S].append((mem[i], mem[j]))
             r = vloop.run(b, external_cancel_at=external_cancel_at, again=bool(spec.get('rerun')), on_second_run=second)
     finally:
         PureScheduler._create_task = orig
